@@ -233,6 +233,23 @@ CHECKS["C13"] = dict(
     technique="Lean 4 theorems about a result checker and the replacement lemmas + certification of every tree returned by the real insert_tree",
 )
 
+CHECKS["C12"] = dict(
+    category="proof",
+    text="Expansion of an open leaf by an alternative (expansion_to_children incl. the epsilon child), runs of such steps, replace_path and "
+    "swap_subtrees are modelled on plain trees; theorems for EVERY selection the strategies can make: any sequence of expansion steps keeps "
+    "validity, the root and the input as identity-preserving prefix (expandRun_ok, induction over the step list), replacement of a same-symbol "
+    "valid subtree and swapping of two disjoint same-symbol subtrees keep validity and the root (replace_ok, swap_ok); the result checkers are "
+    "sound (completionCheck_sound: closed derivation tree in which every expanded part of the input is unchanged; mutationCheck_sound). Tie: "
+    "every output of the real GrammarFuzzer / GrammarCoverageFuzzer.expand_tree on generated open trees and of Mutator.mutate and its three "
+    "strategies on generated closed trees is certified by the compiled checker.",
+    design_ref="DESIGN.md section 7 C12",
+    note="The strategies that select expansions and mutation sites (cost phases, coverage, random module) are abstracted into the arbitrary "
+    "choice sequences the theorems quantify over; their outputs are certified one by one. Termination of the real strategies is runtime "
+    "behaviour outside the model (min_nonterminals stays at its default 0, see DESIGN.md). The expanded-part clause treats open leaves as "
+    "holes (the fuzzer gives an expanded leaf a new identity).",
+    technique="Lean 4 theorems (validity/prefix invariants by induction over arbitrary choice sequences, replacement/swap lemmas, checker soundness) + certification of every real fuzzer/mutator output",
+)
+
 NOT_APPLICABLE = {
     "C22": "reproducibility across fresh processes depends on hash randomisation, Z3 seeds/timeouts and wall-clock time; a functional Lean model would prove determinism vacuously and no executable model can exhibit the failure (DESIGN.md section 8)",
 }
